@@ -1,2 +1,265 @@
--- Driver stub for C19 (replaced when the property's model driver is written).
-def main : IO Unit := IO.println "C19: no driver yet"
+import TsVerif.Common.IO
+import TsVerif.C19.Judge
+/-!
+Driver for C19.
+
+`tsv-c19 enum <orig|recheck>`: print every maximal macro schedule of 2 callers (at most one crash)
+for the initial cache states and both timeout regimes, one `sched …` line each.
+
+`tsv-c19 < ops.txt`: for every `case <id> kind=ctl|free k=v …` line print
+`<id> kind=.. corr=<ok|DIFF:..|skip:..> variant=<orig|recheck|both|none> judge=<ok|FAIL:clause> nontrivial=<0|1> …`.
+-/
+open TsVerif TsVerif.C19
+
+def kvOf (ws : List String) : List (String × String) :=
+  ws.filterMap fun w => match w.splitOn "=" with
+    | [k, v] => some (k, v)
+    | _ => none
+
+def look (kv : List (String × String)) (k : String) : String := (kv.lookup k).getD ""
+
+def natOf' (s : String) : Nat := s.toNat?.getD 0
+
+def libOf : String → Option File
+  | "stale" => some ⟨1, true⟩
+  | "fresh" => some ⟨2, true⟩
+  | _ => none
+
+/-- A real result token → model result (`none` = died); `Except` for tokens the model has no word for. -/
+def resOf (s : String) : Except String (Option Res) :=
+  if s == "dead" then .ok none
+  else if s == "timeout" then .ok (some (.err .timeout))
+  else if s == "missing" then .ok (some (.err .missing))
+  else if s == "compile" then .ok (some (.err .compile))
+  else if s == "partial" then .ok (some (.err .partialLib))
+  else if s.startsWith "ok" then
+    match (s.drop 2).toString.toNat? with
+    | some v => .ok (some (.ok v))
+    | none => .error s
+  else .error s
+
+def finalLibOf (s : String) : Option File :=
+  if s == "none" then none
+  else if s == "partial" then some ⟨0, false⟩
+  else some ⟨natOf' (s.drop 1).toString, true⟩
+
+def showLib : Option File → String
+  | none => "none"
+  | some f => if f.complete then s!"v{f.ver}" else "partial"
+
+def parseSteps (s : String) : List (Nat × MAct) :=
+  (s.splitOn ",").filterMap fun w => match w.splitOn ":" with
+    | [p, a] => (MAct.ofName a).map fun m => (natOf' p, m)
+    | _ => none
+
+def showSteps (l : List (Nat × MAct)) : String := ",".intercalate (l.map fun (p, a) => s!"{p}:{a.name}")
+
+def judgeStr (o : Outcome) (bad : Option String) : String :=
+  match bad with
+  | some b => s!"FAIL:unexpected:{b}"
+  | none =>
+    if !judgeSafe o then
+      (if (match o.finalLib with | some f => !f.complete | none => false) then "FAIL:partial-file"
+       else if (o.results ++ [o.later]).any (fun r => r == some (.err .partialLib)) then "FAIL:partial-observed"
+       else "FAIL:stale-success")
+    else if !judgeRecovery o then
+      s!"FAIL:recovery:{showResult o.later}"
+    else "ok"
+
+def tempCount (s : State) (n : Nat) : Nat := ((s.procs.take n).filter fun pr => pr.temp.isSome).length
+
+/-- Kill (crash) every caller below `n` that has not finished. -/
+def killRest (c : Cfg) (s : State) (n : Nat) : State :=
+  (List.range n).foldl (fun s p => match step c s p .crash with | some s' => s' | none => s) s
+
+structure Pred where
+  points : String
+  results : String
+  finallib : String
+  lockleft : String
+  temps : Nat
+  later : String
+  deriving DecidableEq
+
+def predictCtl (variant : Variant) (kv : List (String × String)) : Option Pred :=
+  let n := natOf' (look kv "n")
+  let K := natOf' (look kv "K")
+  let broken := look kv "broken" == "1"
+  let c : Cfg := { K, mayFail := broken, variant }
+  let stray := if look kv "temp" == "1" then 1 else 0
+  let s0 := mkInit 2 (libOf (look kv "lib")) (look kv "lock" == "1") (n + 1)
+  -- the leftover lock's owner is nobody: `mkInit` uses index n+1
+  match mrun c broken s0 (parseSteps (look kv "steps")) [] with
+  | none => none
+  | some (s1, pts) =>
+    let s2 := killRest c s1 n
+    let s3 := runSolo { c with K := if K == 0 then 0 else 2 } broken s2 n 64
+    some {
+      points := if pts.isEmpty then "-" else ";".intercalate (pts.map fun o => match o with | some a => a.name | none => "end")
+      results := ";".intercalate ((s2.procs.take n).map fun pr => showResult (resultOf pr))
+      finallib := showLib s2.lib
+      lockleft := if s2.lock.isSome then "1" else "0"
+      temps := tempCount s2 n + stray
+      later := showResult (resultOf (s3.procs.getD n default)) }
+
+def normPoints (s : String) : String :=
+  ";".intercalate ((s.splitOn ";").map fun w => if w == "exit" || w == "dead" then "end" else w)
+
+def diffPred (p : Pred) (kv : List (String × String)) : Option String :=
+  if p.points != normPoints (look kv "points") then some s!"points:model={p.points}"
+  else if p.results != look kv "results" then some s!"results:model={p.results}"
+  else if p.finallib != look kv "finallib" then some s!"finallib:model={p.finallib}"
+  else if p.lockleft != look kv "lockleft" then some s!"lockleft:model={p.lockleft}"
+  else if p.temps != natOf' (look kv "temps") then some s!"temps:model={p.temps}"
+  else if p.later != look kv "later" then some s!"later:model={p.later}"
+  else none
+
+/-! free cases: the real (sorted results, final library, lock left, later) must be reachable -/
+
+def procKey (pr : Proc) : Nat :=
+  let pc := match pr.pc with
+    | .start => 0 | .needLock => 1 | .haveLock => 2 | .compiling => 3 | .wroteTemp => 4 | .renamed => 5
+    | .failed => 6 | .loading => 7 | .dead => 8
+    | .waiting k => 20 + k
+    | .done (.ok v) => 1010 + v
+    | .done (.err .timeout) => 1000 | .done (.err .missing) => 1001 | .done (.err .compile) => 1002
+    | .done (.err .partialLib) => 1003
+  let t := match pr.temp with
+    | none => 0
+    | some f => 1 + 2 * f.ver + (if f.complete then 1 else 0)
+  pc * 64 + t
+
+def insertProc (x : Proc) : List Proc → List Proc
+  | [] => [x]
+  | y :: ys => if procKey x ≤ procKey y then x :: y :: ys else y :: insertProc x ys
+
+/-- Callers are interchangeable and `step` never reads *who* owns the lock: sort the callers and
+forget the owner.  Temps of finished callers are irrelevant for what is observed in free runs. -/
+def canon (s : State) : State :=
+  let procs := s.procs.map fun pr => if pr.pc.finished then { pr with temp := none } else pr
+  { s with procs := procs.foldl (fun acc x => insertProc x acc) [], lock := s.lock.map fun _ => 0 }
+
+structure FreeSummary where
+  results : List String
+  lib : String
+  lockLeft : Bool
+  later : String
+  deriving DecidableEq, Hashable, Repr
+
+def laterOf (c : Cfg) (s : State) : String :=
+  let n := s.procs.length
+  let s' := { s with procs := s.procs ++ [{ pc := .start, temp := none }] }
+  let s'' := runSolo c c.mayFail s' n 64
+  showResult (resultOf (s''.procs.getD n default))
+
+partial def exploreFree (c : Cfg) (crash : Bool) (work : List State) (seen : Std.HashSet State)
+    (outs : Std.HashSet FreeSummary) (fuel : Nat) : Std.HashSet FreeSummary × Nat × Bool :=
+  match work with
+  | [] => (outs, seen.size, true)
+  | s :: rest =>
+    if fuel == 0 then (outs, seen.size, false) else
+    let outs := if terminal s then
+        outs.insert { results := sortStrings (s.procs.map fun pr => showResult (resultOf pr)),
+                      lib := showLib s.lib, lockLeft := s.lock.isSome, later := laterOf c s }
+      else outs
+    let (work, seen) := (succs c crash s).foldl (fun (ws : List State × Std.HashSet State) t =>
+      let t := canon t
+      if ws.2.contains t then ws else (t :: ws.1, ws.2.insert t)) (rest, seen)
+    exploreFree c crash work seen outs (fuel - 1)
+
+def freeKey (kv : List (String × String)) : String :=
+  s!"{look kv "lib"}/{look kv "lock"}/{look kv "n"}/{look kv "broken"}/{look kv "crash"}"
+
+abbrev Cache := Std.HashMap String (Std.HashSet FreeSummary × Nat × Bool)
+
+def freeSet (variant : Variant) (kv : List (String × String)) (cache : Cache) : (Std.HashSet FreeSummary × Nat × Bool) × Cache :=
+  let key := s!"{repr variant}/{freeKey kv}"
+  match cache.get? key with
+  | some r => (r, cache)
+  | none =>
+    let n := natOf' (look kv "n")
+    let c : Cfg := { K := 1, mayFail := look kv "broken" == "1", variant }
+    let s0 := canon (mkInit 2 (libOf (look kv "lib")) (look kv "lock" == "1") n)
+    let r := exploreFree c (look kv "crash" == "1") [s0] (Std.HashSet.emptyWithCapacity.insert s0) Std.HashSet.emptyWithCapacity 3000000
+    (r, cache.insert key r)
+
+def memberFree (set : Std.HashSet FreeSummary) (kv : List (String × String)) : Bool :=
+  let res := sortStrings ((look kv "results").splitOn ";")
+  let later := look kv "later"
+  set.any fun f => f.results == res && f.lib == look kv "finallib" && (if f.lockLeft then "1" else "0") == look kv "lockleft" &&
+    (later == "skip" || f.later == later)
+
+def outcomeOfReal (kv : List (String × String)) : Outcome × Option String :=
+  let toks := (look kv "results").splitOn ";"
+  let parsed := toks.map resOf
+  let bad := parsed.findSome? fun r => match r with | .error e => some e | .ok _ => none
+  let later := look kv "later"
+  let (laterR, bad) := if later == "skip" then (none, bad) else
+    match resOf later with
+    | .ok (some r) => (some r, bad)
+    | .ok none => (none, bad.orElse fun _ => some "later-dead")
+    | .error e => (none, bad.orElse fun _ => some s!"later-{e}")
+  let bad := if look kv "problem" != "-" then some s!"problem-{look kv "problem"}" else bad
+  ({ src := 2, compiles := look kv "broken" != "1",
+     results := parsed.map fun r => match r with | .ok o => o | .error _ => none,
+     finalLib := finalLibOf (look kv "finallib"), lockLeft := look kv "lockleft" == "1", later := laterR }, bad)
+
+def nontrivial (kv : List (String × String)) : Bool :=
+  let n := natOf' (look kv "n")
+  (n ≥ 2 && look kv "lib" != "fresh") || ((look kv "steps").splitOn "crash").length > 1 || look kv "killed" == "1" ||
+    look kv "lock" == "1"
+
+def runCase (id : String) (kv : List (String × String)) (cache : Cache) : String × Cache :=
+  let (o, bad) := outcomeOfReal kv
+  let j := judgeStr o bad
+  let nt := if nontrivial kv then "1" else "0"
+  if look kv "kind" == "ctl" then
+    let d := fun v => match predictCtl v kv with
+      | none => some "schedule-not-enabled-in-model"
+      | some p => diffPred p kv
+    let (corr, variant) := match d .orig, d .recheck with
+      | none, none => ("ok", "both")
+      | none, some _ => ("ok", "orig")
+      | some _, none => ("ok", "recheck")
+      | some a, some _ => (s!"DIFF:{a}", "none")
+    (s!"{id} kind=ctl corr={corr} variant={variant} judge={j} nontrivial={nt}", cache)
+  else
+    let n := natOf' (look kv "n")
+    if n > 6 then (s!"{id} kind=free corr=skip:n>6 variant=both judge={j} nontrivial={nt}", cache) else
+    let ((so, szo, oko), cache) := freeSet .orig kv cache
+    let ((sr, _, okr), cache) := freeSet .recheck kv cache
+    let mo := memberFree so kv
+    let mr := memberFree sr kv
+    let (corr, variant) :=
+      if !(oko && okr) then ("skip:state-space", "both")
+      else if mo && mr then ("ok", "both") else if mo then ("ok", "orig") else if mr then ("ok", "recheck")
+      else ("DIFF:outcome-not-reachable-in-model", "none")
+    (s!"{id} kind=free corr={corr} variant={variant} judge={j} nontrivial={nt} states={szo} outcomes={so.size}", cache)
+
+def enumAll (variant : Variant) : IO Unit := do
+  let mut count := 0
+  for K in [0, 1000] do
+    for broken in [false, true] do
+      for (libName, lib) in [("none", none), ("stale", some (⟨1, true⟩ : File)), ("fresh", some ⟨2, true⟩)] do
+        for lock in [false, true] do
+          for temp in [false, true] do
+            -- leftover temp does not influence the protocol: only with the plain stale/none states
+            if temp && (lock || broken || libName == "fresh") then continue
+            let c : Cfg := { K, mayFail := broken, variant }
+            let s0 := mkInit 2 lib lock 3
+            let scheds := enumSchedCapped c broken 2 2 40 1 s0 [] []
+            for sc in scheds do
+              count := count + 1
+              IO.println s!"sched s{count} lib={libName} lock={if lock then 1 else 0} temp={if temp then 1 else 0} n=2 broken={if broken then 1 else 0} K={K} steps={showSteps sc}"
+
+def main (args : List String) : IO Unit := do
+  match args with
+  | ["enum", v] => enumAll (if v == "recheck" then .recheck else .orig)
+  | _ =>
+    let _ ← foldLines (← IO.getStdin) (({} : Cache)) fun cache line => do
+      match line.splitOn " " with
+      | "case" :: id :: ws =>
+        let (out, cache) := runCase id (kvOf ws) cache
+        IO.println out
+        return cache
+      | _ => return cache
